@@ -86,7 +86,7 @@ func (vc *VC) buildQuery(o *Obl) (string, error) {
 	svSeen := map[string]*Term{}
 	{
 		seen := map[*Term]bool{}
-		for _, a := range asserts {
+		for _, a := range append(append([]*Term{}, asserts...), w.expandTransparent(asserts)...) {
 			Walk(a, seen, func(t *Term) {
 				if t.Op == "sv" && len(t.Args) == 1 {
 					if !hasBound(t) {
@@ -97,14 +97,6 @@ func (vc *VC) buildQuery(o *Obl) (string, error) {
 		}
 	}
 	var body strings.Builder
-	for _, k := range sortedKeys(svSeen) {
-		t := svSeen[k]
-		s := t.Args[0]
-		fmt.Fprintf(&body, "(assert (= (svlen %s) %s))\n", t, StrLen(s))
-		i := "q!svi"
-		fmt.Fprintf(&body, "(assert (forall ((%s Int)) (! (=> (and (<= 0 %s) (< %s %s)) (= (svbyte %s %s) (bytes %s (idx %s %s)))) :pattern ((svbyte %s %s)))))\n",
-			i, i, i, StrLen(s), t, i, StrArr(s), StrOff(s), i, t, i)
-	}
 	for _, a := range asserts {
 		if a.Op == "true" {
 			continue
@@ -117,7 +109,6 @@ func (vc *VC) buildQuery(o *Obl) (string, error) {
 	congAx := vc.congAx
 	var sb strings.Builder
 	sb.WriteString(w.prelude())
-	sb.WriteString("(declare-fun svlen (SV) Int)\n(declare-fun svbyte (SV Int) (_ BitVec 8))\n")
 	for _, n := range vc.declO {
 		sb.WriteString(vc.decl[n])
 		sb.WriteString("\n")
@@ -516,4 +507,52 @@ type vcObl struct {
 
 func sortResults(rs []*Result) {
 	sort.SliceStable(rs, func(i, j int) bool { return rs[i].Obl.Name < rs[j].Obl.Name })
+}
+
+// expandTransparent returns the instantiated bodies of all ground applications
+// of transparent (macro) spec functions occurring in ts, recursively.
+func (w *World) expandTransparent(ts []*Term) []*Term {
+	var out []*Term
+	done := map[string]bool{}
+	byName := map[string]*specSig{}
+	for _, sig := range w.specSigs {
+		if sig.body != nil && !sig.sf.Rec && !sig.sf.Opaque && !sig.sf.Uninter {
+			byName[sig.name] = sig
+		}
+	}
+	var visit func(t *Term)
+	visit = func(t *Term) {
+		var apps []*Term
+		Walk(t, map[*Term]bool{}, func(x *Term) {
+			if _, ok := byName[x.Op]; ok && len(x.Args) > 0 {
+				apps = append(apps, x)
+			}
+		})
+		for _, app := range apps {
+			if hasBound(app) {
+				continue
+			}
+			k := app.String()
+			if done[k] {
+				continue
+			}
+			done[k] = true
+			sig := byName[app.Op]
+			bs := w.specBinders(sig)
+			if len(bs) != len(app.Args) {
+				continue
+			}
+			m := map[string]*Term{}
+			for i, b := range bs {
+				m[b.Name] = app.Args[i]
+			}
+			inst := Subst(sig.body, m)
+			out = append(out, inst)
+			visit(inst)
+		}
+	}
+	for _, t := range ts {
+		visit(t)
+	}
+	return out
 }
